@@ -89,6 +89,8 @@ var c08Fixed = []string{
 	`I + 1 > 2 ? S : S2`, `B and not B2`, `-I ** 2`, `F64 * 2 + I`, `I / 0`, `I % 0`, `AI[10]`, `nil == P`, `Any`,
 	`S + S2 contains "b"`, `S startsWith "a" && S endsWith "c"`, `[I, S, nil, 1.5, [1, 2]]`, `len(S) + len(AI)`,
 	`not (I in AI)`, `AA == [1, "a", nil, 2.5, true]`,
+	// runs that end with the memory-budget error, at different places of different programs
+	`len(1..(I - I + 2000000))`, `[1, 2, len((I - I)..1000000)]`, `map(1..2, {len(#..(I - I + 1500000))})`,
 }
 
 // methods of the universe log their calls into a package-level slice of the harness: not here
